@@ -980,6 +980,68 @@ func c12failedInit(rep *vh.Report, r *vh.RNG) {
 			n.Dialect = &dialect.Dialect{Version: -7, Messages: testDialect.Messages}
 		},
 	}
+	// endpoint configurations that are odd in one part and fine in another (a valid local address with a broadcast port that
+	// is out of range / zero / not a number, ...): whether Initialize accepts them is its own business; afterwards (after
+	// Close if it did) no socket opened for them may be left in this process
+	for ei := 0; ei < 8; ei++ {
+		bp := freeUDPPort()
+		local := fmt.Sprintf("127.0.0.1:%d", bp)
+		confs := []gomavlib.EndpointConf{
+			gomavlib.EndpointUDPBroadcast{BroadcastAddress: "127.255.255.255:70000", LocalAddress: local},
+			gomavlib.EndpointUDPBroadcast{BroadcastAddress: "127.255.255.255:0", LocalAddress: local},
+			gomavlib.EndpointUDPBroadcast{BroadcastAddress: "127.255.255.255:http", LocalAddress: local},
+			gomavlib.EndpointUDPBroadcast{BroadcastAddress: "127.255.255.255:-1", LocalAddress: local},
+			gomavlib.EndpointUDPBroadcast{BroadcastAddress: "[::1]:5600", LocalAddress: local},
+			gomavlib.EndpointUDPBroadcast{BroadcastAddress: "127.255.255.255:5600", LocalAddress: "127.0.0.1:99999"},
+			gomavlib.EndpointUDPServer{Address: "127.0.0.1:99999"},
+			gomavlib.EndpointTCPServer{Address: "256.0.0.1:5600"},
+		}
+		before := socketFDs()
+		tr := fake.NewTransport("odd-ep")
+		// a healthy listener first, the odd endpoint after it
+		tp := freeTCPPort()
+		node := &gomavlib.Node{Endpoints: []gomavlib.EndpointConf{gomavlib.EndpointCustom{ReadWriteCloser: tr}, gomavlib.EndpointTCPServer{Address: fmt.Sprintf("127.0.0.1:%d", tp)}, confs[ei]},
+			Dialect: testDialect, OutVersion: gomavlib.V2, OutSystemID: 1}
+		rep.Eval(1)
+		rep.Count("odd_endpoint_configs", 1)
+		var ierr error
+		func() {
+			defer func() {
+				if p := recover(); p != nil {
+					ierr = fmt.Errorf("panic: %v", p)
+					rep.Observe(fmt.Sprintf("Initialize panics on an odd endpoint configuration (%d): %v", ei, p))
+				}
+			}()
+			ierr = node.Initialize()
+		}()
+		if ierr == nil {
+			rep.Count("odd_endpoint_configs_accepted", 1)
+			if !safeClose(rep, node) {
+				return
+			}
+		}
+		var leaked []string
+		for i := 0; i < 40; i++ {
+			leaked = leaked[:0]
+			for sk := range socketFDs() {
+				if !before[sk] {
+					leaked = append(leaked, sk)
+				}
+			}
+			if len(leaked) == 0 {
+				break
+			}
+			time.Sleep(50 * time.Millisecond)
+		}
+		if len(leaked) > 0 {
+			what := "a failed Initialize"
+			if ierr == nil {
+				what = "Initialize + Close"
+			}
+			rep.Violation("what=init-leak:odd-endpoint", fmt.Sprintf("%s with an odd endpoint configuration left %d socket(s) behind", what, len(leaked)),
+				map[string]interface{}{"configuration": fmt.Sprintf("%+v", confs[ei]), "initialize_error": fmt.Sprint(ierr), "sockets": describeSockets(leaked)})
+		}
+	}
 	for oi, mod := range odd {
 		tp, up := freeTCPPort(), freeUDPPort()
 		tr := fake.NewTransport("odd")
